@@ -28,6 +28,7 @@ type ReplayFile struct {
 	Scenario  *Scenario         `json:"scenario"`
 	Decisions []zsimrt.Decision `json:"decisions"`
 	Violation *Violation        `json:"violation,omitempty"`
+	History   *History          `json:"history,omitempty"`
 	Signature string            `json:"signature"`
 	RaceSig   string            `json:"race_signature,omitempty"`
 	Minimised bool              `json:"minimised"`
@@ -35,8 +36,19 @@ type ReplayFile struct {
 	Repro     string            `json:"reproduce,omitempty"`
 }
 
+// History names the runs a worker process executed before a given run. Library
+// state that outlives a call (a cache, a pool) makes a run depend on them; a
+// replay file that carries a History re-executes those runs first.
+type History struct {
+	From      uint64 `json:"from"`
+	Stride    uint64 `json:"stride"`
+	Count     uint64 `json:"count"`
+	ColdFirst bool   `json:"cold_first,omitempty"`
+}
+
 type violRec struct {
 	T         string            `json:"t"`
+	Hist      *History          `json:"history,omitempty"`
 	Run       uint64            `json:"run"`
 	Seed      uint64            `json:"seed"`
 	Viol      *Violation        `json:"viol"`
@@ -211,11 +223,13 @@ func main() {
 			emit(runRec{T: "run", Run: run, Seed: seed, Digest: o.Digest, RefDig: o.RefDigest, PathSig: o.Stats.Sig, Steps: o.Stats.Steps, NDec: len(o.Decisions)})
 		}
 		if *execs {
-			emit(violRec{T: "exec", Run: run, Seed: seed, Scenario: sc, Decisions: o.Decisions, Overflow: o.Stats.DecOverflow})
+			emit(violRec{T: "exec", Run: run, Seed: seed, Scenario: sc, Decisions: o.Decisions, Overflow: o.Stats.DecOverflow,
+				Hist: &History{From: *from, Stride: *stride, Count: k, ColdFirst: *coldFirst}})
 		}
 		if o.Viol != nil {
 			sum.Violations++
-			emit(violRec{T: "viol", Run: run, Seed: seed, Viol: o.Viol, Scenario: sc, Decisions: o.Decisions, Overflow: o.Stats.DecOverflow})
+			emit(violRec{T: "viol", Run: run, Seed: seed, Viol: o.Viol, Scenario: sc, Decisions: o.Decisions, Overflow: o.Stats.DecOverflow,
+				Hist: &History{From: *from, Stride: *stride, Count: k, ColdFirst: *coldFirst}})
 			out.Flush()
 			if sum.Violations >= *maxViol {
 				break
@@ -334,6 +348,17 @@ func doReplay(path string, emit func(any), out *bufio.Writer) int {
 	if err := json.Unmarshal(b, &rf); err != nil || rf.Scenario == nil {
 		fmt.Fprintln(os.Stderr, "zsim: bad replay file:", err)
 		return 2
+	}
+	if h := rf.History; h != nil && h.Count > 0 {
+		// re-create the library state the original process had accumulated
+		c := loadCorpus()
+		for j := uint64(0); j < h.Count; j++ {
+			run := h.From + j*h.Stride
+			seed := zsimrt.SeedFor(rf.Base, run)
+			r := zsimrt.NewRand(seed)
+			sc := genScenario(r, run, seed, h.ColdFirst && j == 0, c)
+			runScenario(sc, r, nil)
+		}
 	}
 	if raceEnabled {
 		fmt.Fprintf(os.Stderr, "@@RUN %d %d\n", rf.Run, rf.Seed)
